@@ -13,7 +13,7 @@ def levels(tier):
     if tier == "quick":
         return [
             {"name": "shape", "mode": "pure", "hosts": [0, 1, 2, 3], "hostL": [1, 3, 4], "paths": [[], [6]], "port": [0, 1]},
-            {"name": "auto", "mode": "auto", "hosts": [2], "hostL": [1], "paths": [[], [1]], "port": [0], "rules": ["domain"]},
+            {"name": "auto", "mode": "auto", "hosts": [2, 3], "hostL": [1], "paths": [[], [1], [1, 1, 1]], "port": [0, 1], "rules": ["domain", "path1"]},
         ]
     return [
         {"name": "shape", "mode": "pure", "hosts": [0, 1, 2, 3], "hostL": [1, 3, 4, 5], "paths": [[], [6], [7], [1, 6]], "port": [0, 1]},
@@ -119,6 +119,9 @@ def auto(E, P, lru, sch, alt, port, hosts, paths):
         created = []
         for weid, prefixes in rep.created_webentities.items():
             created.extend(E.wrap(p) for p in prefixes)
+            for p in prefixes:
+                ok, owner = E.call("get_webentity_by_prefix", t.get_webentity_by_prefix, p)
+                E.check(ok and owner == weid, "auto:attached", "a prefix reported as attached to webentity %d cannot be found attached to it" % weid)
         sets.append(created)
     a, b = sets
     E.check(len(a) == len(b), "auto:same-class", "first-seen variation changes the number of attached prefixes (%d vs %d)" % (len(a), len(b)))
